@@ -523,7 +523,10 @@ func (s *Session) UnmarshalJSON(data []byte) error {
 	if da, ok = obj["da"]; !ok {
 		return errors.New("Missing session data")
 	}
-	if s.data, ok = da.(map[string]interface{}); !ok {
+	if da == nil {
+		// A session without data (e.g. a reference session) is encoded as null.
+		s.data = make(map[string]interface{})
+	} else if s.data, ok = da.(map[string]interface{}); !ok {
 		return fmt.Errorf("Invalid session data type %T", da)
 	}
 	return nil
